@@ -221,6 +221,8 @@ class Ctx:
         }
         if extra_cov:
             cov.update(extra_cov)
+        if getattr(self, "extra_cov", None):
+            cov.update(self.extra_cov)
         ev = {
             "property_id": self.prop, "tier": self.tier, "seed": self.seed, "level": "other",
             "coverage": cov,
